@@ -615,7 +615,20 @@ class TraceRun:
         if self.bad_id is None or self.rng.random() < 0.3:
             src = self.rng.choice(self.pool)["bid"] if self.pool else base64.b64encode(b"gAAAAABnothing").decode()
             i = self.rng.randrange(len(src) // 2, len(src) - 2)
-            self.bad_id = src[:i] + ("A" if src[i] != "A" else "B") + src[i + 1:]
+            # the changed character must change the BYTES the text encodes: the last character in front of base64 padding
+            # carries bits no decoder reads, so replacing it can give another spelling of the very same identifier (which
+            # then rightly resolves to its own session - seen once in a thorough run, a false alarm of this generator)
+            def raw(t):
+                try:
+                    return base64.urlsafe_b64decode(t + "=" * (-len(t) % 4))
+                except Exception:
+                    return None
+            while i > 0:
+                bad = src[:i] + ("A" if src[i] != "A" else "B") + src[i + 1:]
+                if raw(bad) is None or raw(bad) != raw(src):
+                    break
+                i -= 1
+            self.bad_id = bad
         return self.bad_id
 
     # ---------------------------------------------------------------- read-only queries
